@@ -446,8 +446,13 @@ pub fn c33(out: &mut Out, ex: &mut Exec, seed: u64, thorough: bool) {
         // echo program: GETC; OUT; loop `len` times; then PUTS "!"; HALT
         let mut a = Asm::new(0x3000);
         a.ld(1, "N"); a.label("L"); a.trap(0x20); a.trap(0x21); a.add_i(1, 1, -1); a.br(1, "L");
-        a.lea(0, "S"); a.trap(0x22); a.trap(0x25);
+        // every third case also prints a packed string (PUTSP): two bytes per word, the second one possibly absent
+        let packed: &[u8] = match id % 6 { 1 => b"ab", 4 => b"xyz", _ => b"" };
+        a.lea(0, "S"); a.trap(0x22);
+        if !packed.is_empty() { a.lea(0, "P"); a.trap(0x24); }
+        a.trap(0x25);
         a.label("N"); a.w(len as u16); a.label("S"); a.w(0x21); a.w(0);
+        a.label("P"); for ch in packed.chunks(2) { a.w(ch[0] as u16 | (*ch.get(1).unwrap_or(&0) as u16) << 8); } a.w(0);
         // with keyboard interrupts enabled the input arrives late: the program must wait in GETC's poll loop
         let late_input = id % 4 == 2;
         let mut v = base_setup(&format!("{id}"), false, false, &a, if late_input { &[] } else { &input });
@@ -464,6 +469,9 @@ pub fn c33(out: &mut Out, ex: &mut Exec, seed: u64, thorough: bool) {
         for l in &v { let r = ex.line(l); out.op(l, &r); }
         let mut last = ex.line("sim state"); out.op("sim state", &last); v.push("sim state".into());
         let mut acc_i = 0u32; let mut denied_critical = vec![]; let (mut kl, mut dl) = (false, false);
+        // F19 is the race in which the lock is taken BETWEEN a poll that reported ready and the data access it licenses;
+        // a data access refused without such a poll directly before it (as the device's previous access) is not that finding
+        let (mut k_polled, mut d_polled) = (false, false); let mut denied_unpolled = vec![];
         for _step in 0..4000 {
             if late_input && _step == 40 { let l = format!("sim kbpush {}", input.iter().map(|b| format!("{:02x}", b)).collect::<String>()); let r = ex.line(&l); out.op(&l, &r); v.push(l); }
             let pc = u16::from_str_radix(field(&last, "pc").unwrap_or("0"), 16).unwrap_or(0);
@@ -477,6 +485,10 @@ pub fn c33(out: &mut Out, ex: &mut Exec, seed: u64, thorough: bool) {
             let kind: u8 = if id % 3 == 2 { 2 } else { 1 };
             if want_k != kl { let l = format!("sim lock kb {}", if want_k { kind } else { 0 }); let r = ex.line(&l); out.op(&l, &r); v.push(l); kl = want_k; }
             if want_d != dl { let l = format!("sim lock ds {}", if want_d { kind } else { 0 }); let r = ex.line(&l); out.op(&l, &r); v.push(l); dl = want_d; }
+            if let Some(t) = dev {
+                if (t == 0xFE02 && kl && !k_polled) || (t == 0xFE06 && dl && !d_polled) { denied_unpolled.push((pc, t)); }
+                match t { 0xFE00 => k_polled = !kl, 0xFE02 => k_polled = false, 0xFE04 => d_polled = !dl, 0xFE06 => d_polled = false, _ => {} }
+            }
             if let Some(t) = dev { if (t == 0xFE02 && kl) || (t == 0xFE06 && dl) { denied_critical.push(t); } out.hist.hit(&format!("device_access_{:04x}_{}", t, if (t <= 0xFE02 && kl) || (t >= 0xFE04 && dl) { "denied" } else { "free" })); }
             // every fifth case a debugger watches the keyboard registers between steps with side-effect-free reads (omnipotent
             // context): they must not consume or disturb anything
@@ -489,14 +501,14 @@ pub fn c33(out: &mut Out, ex: &mut Exec, seed: u64, thorough: bool) {
         }
         for l in ["sim lock kb 0", "sim lock ds 0", "sim state"] { let r = ex.line(l); out.op(l, &r); last = r; }
         let ds = field(&last, "ds").unwrap_or("").to_string();
-        let expect = format!("h{}21", input.iter().map(|b| format!("{:02x}", b)).collect::<String>());
+        let expect = format!("h{}21{}", input.iter().map(|b| format!("{:02x}", b)).collect::<String>(), packed.iter().map(|b| format!("{:02x}", b)).collect::<String>());
         let kb_left = field(&last, "kb").unwrap_or("").to_string();
         if !ds.starts_with('#') && (ds != expect || kb_left != "h") {
-            let key = if !denied_critical.is_empty() { "F19:lock-held-at-KBDR-read-or-DDR-store" } else { "exactly-once-violated-without-critical-denial" };
+            let key = if !denied_unpolled.is_empty() { "data-access-refused-without-a-ready-poll-before-it" } else if !denied_critical.is_empty() { "F19:lock-held-at-KBDR-read-or-DDR-store" } else { "exactly-once-violated-without-critical-denial" };
             out.fail(out.lines, format!("{key}: echoed `{ds}` (keyboard left `{kb_left}`) for input `{expect}`; denied critical accesses {:04x?}", denied_critical), v.join("\n"));
         } else { out.hist.hit(if denied_critical.is_empty() { "exactly_once_ok" } else { "exactly_once_ok_despite_critical_denial" }); }
         if seen.insert(crate::simx::fnv(v.iter().flat_map(|l| l.bytes().map(|b| b as u64)))) && (kl || dl || v.iter().any(|l| l.starts_with("sim lock"))) { out.nontrivial += 1; }
         if out.samples.len() < 2 { let mut s = Json::obj(); s.set("input", Json::s(expect.clone())); s.set("locks", Json::Arr(v.iter().filter(|l| l.starts_with("sim lock")).take(12).map(|x| Json::s(x.clone())).collect())); s.set("display", Json::s(ds.clone())); out.sample(s); }
     }
-    out.rule = "GETC/OUT echo programs (input length 1-3, every 10th up to 30) + PUTS, virtual HALT; the harness holds the keyboard / display buffer lock (an exclusive write guard, or in every third case a shared read guard) around chosen step_in calls (try_write then fails deterministically): for short inputs a 16-bit pattern over the first 16 device accesses of the OS routines (KBSR/KBDR/DSR/DDR, identified by PC), otherwise random per-step patterns; in every fifth case side-effect-free host reads of KBDR/KBSR (a debugger's watch) between steps; every step compared with the model; oracle: display = input bytes exactly once in order, keyboard empty; failures with a lock held at a KBDR read or DDR store are the recorded finding F19".into();
+    out.rule = "GETC/OUT echo programs (input length 1-3, every 10th up to 30) + PUTS (+ PUTSP of a packed string in every third case), virtual HALT; the harness holds the keyboard / display buffer lock (an exclusive write guard, or in every third case a shared read guard) around chosen step_in calls (try_write then fails deterministically): for short inputs a 16-bit pattern over the first 16 device accesses of the OS routines (KBSR/KBDR/DSR/DDR, identified by PC), otherwise random per-step patterns; in every fifth case side-effect-free host reads of KBDR/KBSR (a debugger's watch) between steps; every step compared with the model; oracle: display = input bytes exactly once in order, keyboard empty; failures with a lock held at a KBDR read or DDR store that directly follows a free poll of the same device (the race between poll and data access) are the recorded finding F19; a data access refused without such a poll before it, and any other failure, is a violation".into();
 }
